@@ -255,19 +255,25 @@ func errKind(err error) string {
 }
 
 type scanResult struct {
-	canon  string
-	kinds  []string
-	uncat  bool // an unrecognised operator token (code -2) occurs
-	nul    bool // a NUL character token (code 0) occurs
-	err    error
-	tokens []parser.Token
+	canon    string
+	kinds    []string
+	uncat    bool // an unrecognised operator token (code -2) occurs
+	nul      bool // a NUL character token (code 0) occurs
+	err      error
+	tokens   []parser.Token
+	panicked interface{} // the scanner panicked (law scan_total:panic)
 }
 
 // scanImpl runs the real scanner to EOF or to the first scanner error.
-func scanImpl(src string, prep, ansi bool) scanResult {
+func scanImpl(src string, prep, ansi bool) (res scanResult) {
+	defer func() {
+		if r := recover(); r != nil {
+			res.panicked = r
+			res.canon = fmt.Sprint("PANIC ", r)
+		}
+	}()
 	sc := new(parser.Scanner).Init(src, "", prep, ansi)
 	var parts []string
-	res := scanResult{}
 	limit := utf8.RuneCountInString(src) + 2
 	for i := 0; ; i++ {
 		if i > limit {
@@ -353,6 +359,12 @@ func scanOp(o *hc.Out, raw string, prep, ansi bool) scanResult {
 	src := sanitize(raw)
 	res := scanImpl(src, prep, ansi)
 	mode := modeName(prep, ansi)
+	if res.panicked != nil {
+		if o.Stats["law_fail:scan_total:panic"] < 6 {
+			o.Law("scan_total:panic", map[string]interface{}{"input": src, "input_hex": hx(src), "mode": mode, "detail": fmt.Sprint(res.panicked)})
+		}
+		return res
+	}
 	for _, k := range res.kinds {
 		o.Count("tok:" + k)
 	}
